@@ -37,4 +37,9 @@ PROPS = {
             "level_text": "Bounded symbolic execution + SMT: eye, target, up (9 free reals, eye!=target, up not parallel to the view direction) and origin/basis vectors are symbolic; each goal is proved for all of them; every divisor is proved non-zero under the precondition. No loop or value bound.",
             "level_note": "Exact-real semantics; sqrt via r>=0, r^2=a. Orthonormal bases through the quaternion parametrisation and, separately, under the six orthonormality equations as hypotheses. Trusted: rustc, the symbolic scalar, z3.",
             "bounds": {"layouts": 2, "handedness": ["lh", "rh"]}, "assumptions": COMMON_S},
+    "C10": {"engines": "S",
+            "technique": "symbolic execution of the real world_to_viewport_*/viewport_to_world_*/picking_region code (including the general 4x4 inverse) at an exact-real scalar; projection formula for free 4x4 pairs, round trip for affine model-view x frustum/orthographic-pattern projections, picking corners, as fraction-lifted rational identities decided by z3 (QF_NRA)",
+            "level_text": "Bounded symbolic execution + SMT over all matrix entries, viewport values and points under the stated preconditions (det(P*M)!=0, clip w!=0, viewport size !=0).",
+            "level_note": "Round trip claimed for every affine model-view (12 free entries) combined with every projection of the frustum or orthographic sparsity pattern (contains all matrices the constructors return); fully general 4x4 pairs are attempted in the thorough tier only (model-view general, projection identity) and reported undecided when z3 does not finish. Exact-real semantics.",
+            "bounds": {"layouts": 2, "flavours": ["no", "zo"], "matrix patterns": "affine x frustum-pattern, affine x orthographic-pattern; general x identity (thorough)"}, "assumptions": COMMON_S},
 }
